@@ -60,8 +60,7 @@ def replay(chk, exe, libs, cfg, nh, tag, names):
         chk.model_violation(cfg, r)
         return
     g = tour.Graph()
-    for ln in r["lines"]["EDGE"]:
-        g.add(ln)
+    g.add_all(r["lines"]["EDGE"])
     root = json.dumps(dict(env=({n: "<unset>" for n in names} if names else []), holder=[dict(kind="none", inst=0, sym="")] * nh, inst=[]), separators=(",", ":"), sort_keys=True)
     paths, ncov, unreach = g.tours(root, max_len=30)
     cases = [dict(libs=libs, nh=nh, steps=[dict(op="UnsetEnv", args=[n]) for n in names] + [dict(op=g.edges[i][1]["op"], args=g.edges[i][1]["args"]) for i in p]) for p in paths]
